@@ -51,6 +51,8 @@ def check_C04(ctx):
     for c in cases[:2] + cases[-2:]:
         ctx.sample({"id": c["id"], "source": c["source"], "imports": len(c["inm"]["imports"]), "funcs": len(c["inm"]["funcs"]), "elems": len(c["inm"]["elems"]), "data": len(c["inm"]["data"]), "sigma_func": c["sigma"]["func"]})
     ctx.assumptions += ["wasmparser 0.214 decodes both binaries faithfully", "the renumbering is proposed from walrus's own parse-time and emit-time maps and *checked* by TLC"]
+    # signatures: the type section (with duplicate entries), block types given by index, builder-made functions -- Types.tla
+    types_oracle(ctx, "C04")
 
 
 # ------------------------------------------------------------------------------------------------
@@ -143,8 +145,10 @@ def check_C06(ctx):
 def check_C07(ctx):
     ctx.rule = ("same traces as C06, converse direction: Reach recomputed on the *output* must cover every emitted entity (residue: at most one memory when a "
                 "data segment is emitted), every emitted type is used, and parse;gc;gc;emit yields the bytes of parse;gc;emit. Design: GcExact and SecondGcIsNoOp "
-                "on Walrus.tla.")
+                "on Walrus.tla. Types: Types.tla (interner, entry types, users of types, GC, written type section) model-checked for NoGarbageAfterGc / GcIdempotent and its "
+                "behaviours replayed on real Modules; after every GC the module's types, and on emit the written type section, must be exactly the model's (Trace_Types.tla).")
     gc_trace(ctx, "C07")
+    types_oracle(ctx, "C07")
 
 
 # ------------------------------------------------------------------------------------------------
@@ -313,6 +317,8 @@ def check_C17(ctx):
     for c in allc[:1] + allc[len(allc) // 2: len(allc) // 2 + 1] + allc[-1:]:
         ctx.sample({"id": c["id"], "events": c["events"][:8]})
     ctx.notes["events_validated"] = sum(len(c["events"]) for c in allc)
+    # the type interner in its setting (parse with duplicate type-section entries, entry types, FunctionBuilder, GC): Types.tla
+    types_oracle(ctx, "C17")
 
 
 # ------------------------------------------------------------------------------------------------
@@ -654,6 +660,40 @@ def check_C10(ctx):
         ctx.sample({"id": c["id"], "in_subs": c["in_subs"][:3], "out_subs": c["out_subs"][:3], "in_rows": [(r["addr"], r["fi"], r["k"]) for r in c["in_rows"][:6]], "out_rows": [(r["addr"], r["fi"], r["k"]) for r in c["out_rows"][:6]]})
     ctx.assumptions += ["gimli 0.26 writes and reads the synthesized DWARF faithfully", "low_pc of a subprogram is taken to be the start of the function's code-section entry (its size field), which is the convention walrus's own address tables use",
                         "v5 rows naming file 0 are not synthesized (gimli::write does not emit them)"]
+
+
+def types_oracle(ctx, prop):
+    """Types.tla (the type interner, entry types, what names a type, GC of types, the written type section): model checked,
+    its behaviours enumerated / simulated by TLC, replayed on real Modules and validated step by step (Trace_Types.tla) with
+    the comparisons that are instances of `prop` enforced."""
+    import zlib
+    q = ctx.quick()
+    cfg = write_cfg("MC_Types_gen", open(os.path.join(SPEC, "MC_Types.cfg")).read().replace("MaxFuncs = 2", "MaxFuncs = %d" % (1 if q else 2)))
+    model_check(ctx, "MC_Types", cfg=cfg, workers=8, label="design-types")
+    raw = os.path.join(ctx.work, "types_hist")
+    cfg = write_cfg("Enum_Types_gen", open(os.path.join(SPEC, "Enum_Types.cfg")).read())
+    r = tlc("MC_Types", cfg=cfg, workers=8, cont=False, capture=("CASE", raw + ".a"), name="enum-types")
+    ctx.add_mc(r, "enum-type-behaviours(<=2 types, 1 function, 1 edit)")
+    cfg = write_cfg("Sim_Types_gen", "SPECIFICATION Spec\nCONSTANTS\n  Lists <- ListsSmall\n  MaxTypes = 3\n  MaxFuncs = 3\n  MaxEdits = 5\nINVARIANTS\n  EmitCase\nCHECK_DEADLOCK FALSE\n")
+    r = tlc("MC_Types", cfg=cfg, workers=8, cont=False, capture=("CASE", raw + ".b"), name="sim-types", simulate="num=%d" % (40 if q else 800), extra=["-depth", "14", "-seed", str(ctx.seed)])
+    ctx.add_mc(r, "simulate-type-behaviours(<=3 types, 3 functions, 5 edits)")
+    a = [l for l in open(raw + ".a")]
+    b = sorted(set(open(raw + ".b")))
+    budget = (4000, 4000) if q else (10 ** 9, 200000)
+    pick = lambda ls, n: ls if len(ls) <= n else [l for l in ls if (zlib.crc32(l.encode()) + ctx.seed) % max(1, len(ls) // n) == 0]
+    hist = raw + ".txt"
+    with open(hist, "w") as f:
+        f.writelines(pick(a, budget[0]) + pick(b, budget[1]))
+    trace = os.path.join(ctx.work, "types.ndjson")
+    for f in os.listdir(ctx.work):
+        if f.startswith("types.ndjson"):
+            os.remove(os.path.join(ctx.work, f))
+    shards = 4 if q else 16
+    out = wv(["trace-types", "histories=" + hist, "out=" + trace, "shards=%d" % shards])
+    os.environ["PROPERTY"] = prop
+    cases = judge_shards(ctx, "Trace_Types", ["%s.%d" % (trace, k) for k in range(shards)], label="types", slim=lambda c: {"id": c["id"], "ops": [e["e"] for e in c["events"]]})
+    ctx.notes["type_interner_behaviours"] = {"enumerated": len(a), "simulated": len(b), "replayed": len(cases)}
+    return cases
 
 
 def exec_control_strings(ctx, maxlen, budget):
